@@ -297,6 +297,17 @@ func (fx *Fx) evalUnary(st *State, e *ast.UnaryExpr) []Val {
 			t := c.define("ip", "Int", id)
 			st.assume(fmt.Sprintf("(> %s 0)", t))
 			fx.c.interior[t] = loc
+			// snapshot: a read through a copy of this pointer whose origin is no longer known sees the current value
+			// (sound while the field is not written through the other alias afterwards; noted as an assumption)
+			if pt := loc.locType(); pt != nil && loc.kind == locHeap && strings.HasPrefix(loc.key, "P:") {
+				if s, named, _ := structOf(pt); s == nil || opaqueNamed(named) {
+					cur := fx.readLoc(st, loc)
+					hs := "(Array Int " + cur.S + ")"
+					key := "P:" + typeKey(pt)
+					st.setHeap(key, hs, fmt.Sprintf("(store %s %s %s)", st.heap(key, hs), t, cur.T))
+					c.warn("interior pointer %s: reads through untracked copies see the value at the time the address was taken", fx.exprText(e))
+				}
+			}
 			return []Val{{T: t, S: "Int", GT: fx.info.TypeOf(e)}}
 		}
 		fx.unsup(e, "address of %s", fx.exprText(x))
